@@ -407,19 +407,29 @@ func directChecks(progs [][]*cop, mode string) (string, string) {
 	return "", ""
 }
 
-// runAlias: Export's snapshot shares the *Entry values with the log (informational probe; the
-// data race this allows in the export handler is described in design-notes/sections/C17.md).
+// runAlias: the outcome of an Export must not change after Export returned. The deterministic
+// form of the data race between the export handler (JSON-encoding the result outside the lock)
+// and RecordResponse (completing a pending entry): if Export hands out the log's own *Entry
+// values, a later RecordResponse shows through the snapshot.
 func runAlias() core.Result {
 	l := har.NewLogger()
 	l.RecordRequest("a", mkReq("a", 0))
+	l.RecordRequest("b", mkReq("b", 1))
+	l.RecordResponse("b", mkRes(2))
 	h := l.Export()
-	before := h.Log.Entries[0].Response != nil
-	l.RecordResponse("a", mkRes(1))
-	after := h.Log.Entries[0].Response != nil
-	impl := "alias copy"
-	if !before && after {
-		impl = "alias live"
-		core.Count("alias:export-snapshot-is-live")
+	before, bad := readHAR(h, true)
+	if bad != "" {
+		return core.Result{Impl: "alias bad", Fail: bad, Sig: "export:malformed", SkipModel: true}
 	}
-	return core.Result{Impl: impl, SkipModel: true}
+	l.RecordResponse("a", mkRes(3))
+	l.RecordResponse("b", mkRes(4))
+	after, _ := readHAR(h, true)
+	if showEnts(before) != showEnts(after) {
+		core.Count("alias:export-snapshot-is-live")
+		return core.Result{Impl: "alias live", SkipModel: true, Sig: "export:live-entries",
+			Fail: fmt.Sprintf("the result of Export changed after it was returned: %q became %q when responses were recorded later "+
+				"(Export shares its *Entry values with the log; reading them races with RecordResponse)", showEnts(before), showEnts(after))}
+	}
+	core.Count("alias:export-snapshot-is-stable")
+	return core.Result{Impl: "alias copy", SkipModel: true}
 }
